@@ -122,12 +122,12 @@ func scenBlock(rng *rand.Rand, tr *sim.Trace, seg int, events int) {
 		case 4, 5: // own query; maybe answered
 			c := h.call(src, "ping", dht.QueryInput{})
 			time.Sleep(300 * time.Microsecond)
-			if !h.dropped(src) && !h.conn.WaitOut(1, 5*time.Second) {
+			if !h.dropped(src) && !h.conn.WaitOut(1, 30*time.Second) {
 				fail("own query to %v never written", src)
 			}
 			outs := h.flush(false)
 			if h.dropped(src) {
-				if !h.ret(c, 5*time.Second) {
+				if !h.ret(c, 30*time.Second) {
 					fail("query to a blocked address did not return")
 				}
 				continue
@@ -135,8 +135,8 @@ func scenBlock(rng *rand.Rand, tr *sim.Trace, seg int, events int) {
 			if len(outs) > 0 && rng.Intn(3) != 0 {
 				t, _ := outs[len(outs)-1].Str("t")
 				h.in(src, &query{y: "r", t: t, hasA: true, id: randID(rng), port: -1})
-				sim.WaitQuiet(10 * time.Second)
-				if !h.ret(c, 5*time.Second) {
+				sim.WaitQuiet(60 * time.Second)
+				if !h.ret(c, 30*time.Second) {
 					fail("own query did not return after its reply")
 				}
 				h.flush(true)
@@ -149,9 +149,9 @@ func scenBlock(rng *rand.Rand, tr *sim.Trace, seg int, events int) {
 				open = open[1:]
 				// we do not know t here; the flush above logged it; resend unknown t = unmatched, then cancel
 				h.in(c.dst, &query{y: "r", t: []byte("zz"), hasA: true, id: randID(rng), port: -1})
-				sim.WaitQuiet(10 * time.Second)
+				sim.WaitQuiet(60 * time.Second)
 				h.cancelCall(c)
-				if !h.ret(c, 5*time.Second) {
+				if !h.ret(c, 30*time.Second) {
 					fail("cancelled query did not return")
 				}
 				h.flush(true)
@@ -200,7 +200,7 @@ func scenBlock(rng *rand.Rand, tr *sim.Trace, seg int, events int) {
 	}
 	for _, c := range open {
 		h.cancelCall(c)
-		h.ret(c, 5*time.Second)
+		h.ret(c, 30*time.Second)
 	}
 	h.flush(true)
 }
@@ -235,7 +235,7 @@ func scenBudget(rng *rand.Rand, tr *sim.Trace, seg int, events int) {
 			for _, c := range cs {
 				if !h.ret(c, 0) {
 					h.cancelCall(c)
-					if !h.ret(c, 5*time.Second) {
+					if !h.ret(c, 30*time.Second) {
 						fail("cancelled query did not return")
 					}
 				}
@@ -261,7 +261,7 @@ func scenBudget(rng *rand.Rand, tr *sim.Trace, seg int, events int) {
 // settleLoose: like settle, but without a Quiesce line (replies may legitimately have been lost to
 // injected write failures).
 func (h *H) settleLoose() {
-	if !sim.WaitQuiet(10 * time.Second) {
+	if !sim.WaitQuiet(60 * time.Second) {
 		fail("reply goroutines did not finish")
 	}
 	h.flush(false)
@@ -500,7 +500,7 @@ func scenHostile(rng *rand.Rand, tr *sim.Trace, seg int, events int) {
 	for _, c := range cancels {
 		c()
 	}
-	if !sim.WaitQuiet(10 * time.Second) {
+	if !sim.WaitQuiet(60 * time.Second) {
 		fail("reply goroutines did not finish after hostile traffic")
 	}
 	h.conn.TakeAll()
@@ -513,7 +513,7 @@ func scenHostile(rng *rand.Rand, tr *sim.Trace, seg int, events int) {
 		if h.o.passive {
 			answered = true // a passive node answers nobody; the read loop coming back is the observation
 		} else {
-			deadline := time.Now().Add(5 * time.Second)
+			deadline := time.Now().Add(30 * time.Second)
 			for !answered && time.Now().Before(deadline) {
 				for _, of := range h.conn.TakeAll() {
 					if d, err := sim.DecodeDict(of.B); err == nil && of.To.String() == probe.String() {
@@ -538,7 +538,7 @@ func scenHostile(rng *rand.Rand, tr *sim.Trace, seg int, events int) {
 	select {
 	case <-api:
 		apiOk = true
-	case <-time.After(5 * time.Second):
+	case <-time.After(30 * time.Second):
 	}
 	h.tr.Emit(sim.M{"seg": h.seg, "e": "Probe", "answered": answered, "api": apiOk, "datagrams": sent, "ops": nops})
 }
